@@ -94,6 +94,27 @@ def handle (st : Store) (op : String) (inp : Json) : Store × Json :=
     | some s =>
       let s' := stop s
       (putS st sid s', jobj (observe s s'))
+  | "views" =>
+    -- C06 judged on the observation: two honest parties that both completed hold identical views of every
+    -- broadcast round that has a successor round (whose messages carry the echo hash)
+    let parties := jarr inp "parties"
+    let rounds := (jarr inp "rounds").map fun r => (jnat r "num", jbool r "recvB")
+    let cheater := jint inp "cheater"
+    let final := jnat inp "final"
+    let protectedRounds := (rounds.zipIdx.filter fun ((num, b), i) =>
+        b && 2 ≤ num && num ≤ final &&
+        (match rounds[i + 1]? with | some (n2, _) => n2 == num + 1 && n2 ≤ final | none => false)).map (·.1.1)
+    let viewOf (p : Json) (r : Nat) : List (String × String) :=
+      match jget p "views" with
+      | .obj kvs => (kvs.toList.filter fun kv => kv.1.startsWith s!"{r}|").map fun kv => (kv.1, kv.2.getStr?.toOption.getD "")
+      | _ => []
+    let completed (p : Json) : Bool := (jstr p "term").startsWith "result:"
+    let ok := parties.zipIdx.all fun (p, i) => parties.zipIdx.all fun (q, j) =>
+      if (i : Int) == cheater || (j : Int) == cheater || !(completed p && completed q) then true
+      else protectedRounds.all fun r =>
+        -- same payload from every sender both have heard (a party does not receive its own broadcast)
+        (viewOf p r).all fun (k, v) => (viewOf q r).all fun (k', v') => k != k' || v == v'
+    (st, jobj [("ok", ok)])
   | "conc" =>
     -- judge an observed concurrent run: expected results come from the in-order run of the model
     let scs := (jarr inp "scripts").map parseScript
